@@ -19,6 +19,7 @@ META = {
 }
 
 SINKS = ('log', 'log2', 'stdout', 'stderr', 'tty', 'sock', 'devlog')
+PARENT = open('/proc/self/comm', 'rb').read().strip()   # kernel name of the process that spawns the harness (an ancestor of every call)
 
 
 def elements(uid):
@@ -31,7 +32,7 @@ def elements(uid):
         'exclude_uid:me': (b'exclude_uid:%d' % uid, False),
         'exclude_uid:other': (b'exclude_uid:%d' % other, True),
         'only_tty': (b'only_tty', None),          # depends on stdin kind
-        'xso:parent': (b'exclude_spawns_of:python3', False),
+        'xso:parent': (b'exclude_spawns_of:' + PARENT, False),        # the harness's real parent: this very interpreter
         'xso:zz': (b'exclude_spawns_of:zz', True),
         'xso:colon': (b'exclude_spawns_of:qq,job:runner', False),   # the argument itself contains ':'; the harness runs below a process named job:runner
         'xso:colonmiss': (b'exclude_spawns_of:job:runnerx', True),
